@@ -53,6 +53,19 @@ PROOF_CORE = {
     'C20': 'the scalar and array forms of the ellipse coordinate transform agree (both equal '
            'one closed form); the semi-major axis steps strictly outwards then inwards (update_sma '
            '/ reset_sma); an eps = 0 crossing rotates the angle by a quarter turn',
+    'C07': 'each row reads only its own label: the segment / total masks of cutout k mark exactly '
+           'the pixels of the box that do not carry label k, are masked or are non-finite; '
+           'segment_area and the bounding box are those of label k in its own slices; a source '
+           'without an unmasked pixel is recognised as completely masked',
+    'C12': 'the pixels handed to the fitter for a source are exactly the unmasked pixels of the '
+           'fit_shape window centred on its initial position and clipped to the image, with their '
+           'own coordinates and the data minus the local background there, and npixfit is their '
+           'number; the fit mask is "input mask or non-finite"; flags follow the documented rules; '
+           'rows are returned in id order',
+    'C16': 'the pixel set, weights and values every statistic is computed from (no sigma '
+           'clipping): cutout k is the data under aperture k minus its own local background; the '
+           'total mask is "zero aperture weight, input mask or non-finite"; weights, weighted data '
+           'and variances are the aperture weight times the value there and 0 elsewhere',
     'C18': 'leaves the input model and table unchanged; row-order independence of the loop state',
     'C19': 'the encircled-energy interpolators invert each other on the monotone part (maximal '
            'monotone prefix)',
